@@ -3,6 +3,7 @@
 -/
 import MantraDex.Model.System
 import MantraDex.Proofs.NumLemmas
+import MantraDex.Proofs.PoolLemmas
 
 set_option linter.unusedSimpArgs false
 
@@ -16,6 +17,88 @@ def StaticEq (p q : PoolInfo) : Prop :=
 
 /-- reserves are listed in the order of `asset_denoms` -/
 def Aligned (p : PoolInfo) : Prop := p.assets.map (·.denom) = p.denoms
+
+/-! ### helper lemmas -/
+
+theorem StaticEq.refl (p : PoolInfo) : StaticEq p p := ⟨rfl, rfl, rfl, rfl, rfl, rfl⟩
+
+theorem StaticEq.symm {p q : PoolInfo} (h : StaticEq p q) : StaticEq q p :=
+  ⟨h.1.symm, h.2.1.symm, h.2.2.1.symm, h.2.2.2.1.symm, h.2.2.2.2.1.symm, h.2.2.2.2.2.symm⟩
+
+theorem StaticEq.trans {p q r : PoolInfo} (h : StaticEq p q) (h' : StaticEq q r) : StaticEq p r :=
+  ⟨h.1.trans h'.1, h.2.1.trans h'.2.1, h.2.2.1.trans h'.2.2.1, h.2.2.2.1.trans h'.2.2.2.1,
+    h.2.2.2.2.1.trans h'.2.2.2.2.1, h.2.2.2.2.2.trans h'.2.2.2.2.2⟩
+
+/-- pools that share an identifier agree on their static fields (implied by unique identifiers) -/
+def SameIdSameStatic (ps : List PoolInfo) : Prop :=
+  ∀ p ∈ ps, ∀ q ∈ ps, p.id = q.id → StaticEq p q
+
+theorem eq_of_nodup_ids {ps : List PoolInfo} (h : (ps.map (·.id)).Nodup) :
+    ∀ p ∈ ps, ∀ q ∈ ps, p.id = q.id → p = q := by
+  induction ps with
+  | nil => intro p hp; cases hp
+  | cons x xs ih =>
+    rw [List.map_cons, List.nodup_cons] at h
+    intro p hp q hq hid
+    rcases List.mem_cons.1 hp with rfl | hp' <;> rcases List.mem_cons.1 hq with rfl | hq'
+    · rfl
+    · exact absurd (List.mem_map.2 ⟨q, hq', hid.symm⟩) h.1
+    · exact absurd (List.mem_map.2 ⟨p, hp', hid⟩) h.1
+    · exact ih h.2 p hp' q hq' hid
+
+theorem sameIdSameStatic_of_nodup {ps : List PoolInfo} (h : (ps.map (·.id)).Nodup) :
+    SameIdSameStatic ps := by
+  intro p hp q hq hid
+  rw [eq_of_nodup_ids h p hp q hq hid]
+  exact StaticEq.refl q
+
+theorem step_static {s s' : PmState} (h : PmStep s s') (hw : SameIdSameStatic s.pools) :
+    (∀ p ∈ s.pools, ∃ p' ∈ s'.pools, StaticEq p p') ∧ SameIdSameStatic s'.pools := by
+  induction h with
+  | refl s => exact ⟨fun p hp => ⟨p, hp, StaticEq.refl p⟩, hw⟩
+  | buffer s b => exact ⟨fun p hp => ⟨p, hp, StaticEq.refl p⟩, hw⟩
+  | save s pid p0 p' hp hs _ =>
+    obtain ⟨hmem, _⟩ := getPool_ok hp
+    have hf : ∀ q ∈ s.pools, StaticEq q (if q.id == p'.id then p' else q) := by
+      intro q hq
+      split
+      · next hc =>
+        have : q.id = p0.id := by rw [hs.1]; simpa using hc
+        exact (hw q hq p0 hmem this).trans hs
+      · exact StaticEq.refl q
+    rw [savePool_pools_of_getPool hp hs.1]
+    refine ⟨fun q hq => ⟨_, List.mem_map.2 ⟨q, hq, rfl⟩, hf q hq⟩, ?_⟩
+    intro a' ha' b' hb' hid
+    obtain ⟨a, ha, rfl⟩ := List.mem_map.1 ha'
+    obtain ⟨b, hb, rfl⟩ := List.mem_map.1 hb'
+    have h1 := hf a ha
+    have h2 := hf b hb
+    exact h1.symm.trans ((hw a ha b hb (h1.1.trans (hid.trans h2.1.symm))).trans h2)
+  | trans _ _ ih1 ih2 =>
+    obtain ⟨h1, hw1⟩ := ih1 hw
+    obtain ⟨h2, hw2⟩ := ih2 hw1
+    refine ⟨fun p hp => ?_, hw2⟩
+    obtain ⟨p1, hp1, e1⟩ := h1 p hp
+    obtain ⟨p2, hp2, e2⟩ := h2 p1 hp1
+    exact ⟨p2, hp2, e1.trans e2⟩
+
+theorem step_aligned {s s' : PmState} (h : PmStep s s') (ha : ∀ p ∈ s.pools, Aligned p) :
+    ∀ p ∈ s'.pools, Aligned p := by
+  induction h with
+  | refl s => exact ha
+  | buffer s b => exact ha
+  | save s pid p0 p' hp hs hden =>
+    obtain ⟨hmem, _⟩ := getPool_ok hp
+    rw [savePool_pools_of_getPool hp hs.1]
+    intro q' hq'
+    obtain ⟨q, hq, rfl⟩ := List.mem_map.1 hq'
+    split
+    · show p'.assets.map (·.denom) = p'.denoms
+      rw [hden, ← hs.2.1]; exact ha p0 hmem
+    · exact ha q hq
+  | trans _ _ ih1 ih2 => exact ih2 (ih1 ha)
+
+/-! ### the properties -/
 
 /-- what `create_pool` guarantees about an accepted request and the pool it stores -/
 theorem createPool_shape {s s' : PmState} {env : PmEnv} {funds : List Coin} {denoms : List Denom}
@@ -31,7 +114,20 @@ theorem createPool_shape {s s' : PmState} {env : PmEnv} {funds : List Coin} {den
       ∃ p, p ∈ s'.pools ∧ p.id = ident ∧ p.denoms = denoms ∧ p.decimals = decimals ∧ p.ptype = pt ∧
         p.fees = fees ∧ p.lpDenom = lpDenomOf env.self ident ∧
         p.assets = denoms.map (fun d => ⟨d, 0⟩) ∧ Aligned p := by
-  sorry
+  obtain ⟨total, hmin, hlen, hcp, hst, hmax, hfees, hnoadd, hdup, hfee, hvalid, hany, hs', hr⟩ :=
+    createPool_inv h
+  obtain ⟨p, hfresh, hpools, _, _, hp⟩ := createPool_pools h
+  subst hp
+  refine ⟨hlen, hmin, hmax, hcp, hst, hdup, hfee, newPoolIdent s id, ?_, hvalid, hfresh,
+    { id := newPoolIdent s id, denoms := denoms, lpDenom := lpDenomOf env.self (newPoolIdent s id),
+      decimals := decimals, assets := denoms.map fun d => ⟨d, 0⟩, ptype := pt, fees := fees,
+      status := {} }, ?_, rfl, rfl, rfl, rfl, rfl, rfl, rfl, ?_⟩
+  · cases id <;> rfl
+  · rw [hpools]; exact mem_insertPoolSorted.2 (Or.inl rfl)
+  · show List.map (·.denom) (denoms.map fun d => (⟨d, 0⟩ : Coin)) = denoms
+    rw [List.map_map]
+    have : ((fun x : Coin => x.denom) ∘ fun d => (⟨d, 0⟩ : Coin)) = _root_.id := rfl
+    rw [this, List.map_id]
 
 /-- an accepted pool creation attached exactly the fees: every (aggregated) coin sent is one of
     the required fee coins with exactly the required amount, and every required coin was sent -/
@@ -41,7 +137,17 @@ theorem createPool_funds_exact {s s' : PmState} {env : PmEnv} {funds : List Coin
     ∃ total agg, validateFeesArePaid s.config.creationFee env.tfFees funds = .ok total ∧
       aggregateCoins funds = .ok agg ∧
       (∀ f ∈ agg, ∃ t ∈ total, t.denom = f.denom ∧ t.amount = f.amount) := by
-  sorry
+  obtain ⟨total, _, _, _, _, _, hfees, hnoadd, _⟩ := createPool_inv h
+  unfold validateNoAdditionalFunds at hnoadd
+  simp only [↓err_bind, bind_ok, ite_err_ok] at hnoadd
+  obtain ⟨agg, hagg, hnot, _⟩ := hnoadd
+  refine ⟨total, agg, hfees, hagg, ?_⟩
+  intro f hf
+  have := hnot
+  simp only [List.any_eq_true, Bool.not_eq_true', not_exists, not_and, Bool.not_eq_false,
+    Bool.and_eq_true, beq_iff_eq] at this
+  obtain ⟨t, ht, h1, h2⟩ := this f hf
+  exact ⟨t, ht, h1, h2⟩
 
 /-- the creation fee goes to the fee collector, the token-factory fee is consumed by the denom
     creation: the response is exactly [send creation fee]? ++ [create denom] -/
@@ -51,29 +157,118 @@ theorem createPool_messages {s s' : PmState} {env : PmEnv} {funds : List Coin} {
     ∃ sub, r.msgs.map (·.msg) =
       (if s.config.creationFee.amount ≠ 0
         then [Msg.bankSend s.config.feeCollector [s.config.creationFee]] else []) ++ [Msg.tfCreateDenom sub] := by
-  sorry
+  obtain ⟨total, _, _, _, _, _, _, _, _, _, _, _, _, hr⟩ := createPool_inv h
+  subst hr
+  refine ⟨newPoolIdent s id ++ "." ++ C.LP_SYMBOL, ?_⟩
+  simp only [Response.ofMsgs, List.map_map]
+  have : ((fun x : SubMsg => x.msg) ∘ fun m => ({ msg := m } : SubMsg)) = _root_.id := rfl
+  rw [this, List.map_id]
 
-/-- pools are never removed and their static fields never change, whatever message is executed -/
-theorem static_fields_immutable {s s' : PmState} {env : PmEnv} {sender : Addr} {funds : List Coin}
-    {m : PmMsg} {r : Response} (h : pmExecute s env sender funds m = .ok (s', r)) :
+/-- pools are never removed and their static fields never change, whatever message is executed.
+
+    The statement without the extra hypothesis (`static_fields_immutable` as first written) is
+    FALSE: if two stored pools shared an identifier, `savePool` would overwrite both with the
+    updated copy of the first one (see `static_fields_immutable_counterexample` below).  The
+    hypothesis is the weakest natural one: pools with the same identifier agree on their static
+    fields; it follows from unique identifiers (`static_fields_immutable_of_nodup`), which is an
+    invariant (`ids_unique_preserved`). -/
+theorem static_fields_immutable_partial {s s' : PmState} {env : PmEnv} {sender : Addr}
+    {funds : List Coin} {m : PmMsg} {r : Response} (hw : SameIdSameStatic s.pools)
+    (h : pmExecute s env sender funds m = .ok (s', r)) :
     ∀ p ∈ s.pools, ∃ p' ∈ s'.pools, StaticEq p p' := by
-  sorry
+  rcases pmExecute_cases h with hs | ⟨d, dc, f, pt, id, rfl, hc⟩ | ⟨s1, cfg, _, hs, rfl⟩ | ⟨o, _, rfl⟩
+  · exact (step_static hs hw).1
+  · obtain ⟨p, _, hpools, _⟩ := createPool_pools hc
+    intro q hq
+    exact ⟨q, by rw [hpools]; exact mem_insertPoolSorted.2 (Or.inr hq), StaticEq.refl q⟩
+  · exact (step_static hs hw).1
+  · exact fun p hp => ⟨p, hp, StaticEq.refl p⟩
+
+/-! #### counterexample to the unrestricted statement
+
+Two stored pools share the identifier "x" (different denoms / LP denom).  The owner toggles a
+feature of pool "x": `getPool` finds the first one, `savePool` overwrites *both* entries with its
+updated copy, and the second pool's static fields are gone. -/
+namespace CE
+def fee0 : PoolFee := ⟨0, 0, 0, []⟩
+def pa : PoolInfo := { id := "x", denoms := ["a", "b"], lpDenom := "lpA", decimals := [6, 6],
+                       assets := [⟨"a", 0⟩, ⟨"b", 0⟩], ptype := .cp, fees := fee0, status := {} }
+def pb : PoolInfo := { id := "x", denoms := ["c", "d"], lpDenom := "lpB", decimals := [6, 6],
+                       assets := [⟨"c", 0⟩, ⟨"d", 0⟩], ptype := .cp, fees := fee0, status := {} }
+def s0 : PmState := { config := ⟨"fc", "fm", ⟨"uom", 0⟩⟩, pools := [pa, pb],
+                      owner := { owner := some "admin" } }
+def env0 : PmEnv := { self := "pm", nowNs := 0, bal := fun _ _ => 0, supply := fun _ => 0,
+                      tfFees := [], validAddr := fun _ => true, fmPosition := fun _ => none }
+def pa' : PoolInfo := { pa with status := { swaps := false } }
+
+theorem run :
+    pmExecute s0 env0 "admin" [] (.updateConfig none none none (some ⟨"x", some false, none, none⟩))
+      = .ok ({ s0 with pools := [pa', pa'] }, { attrs := [("action", "update_config")] }) := by
+  rfl
+end CE
+
+/-- `static_fields_immutable` without a hypothesis on `s.pools` does not hold -/
+theorem static_fields_immutable_counterexample :
+    ¬ (∀ {s s' : PmState} {env : PmEnv} {sender : Addr} {funds : List Coin} {m : PmMsg}
+        {r : Response}, pmExecute s env sender funds m = .ok (s', r) →
+        ∀ p ∈ s.pools, ∃ p' ∈ s'.pools, StaticEq p p') := by
+  intro H
+  obtain ⟨p', hp', he⟩ := H CE.run CE.pb (by simp [CE.s0])
+  have hd : CE.pb.denoms = p'.denoms := he.2.1
+  have : p' = CE.pa' := by
+    simp only [List.mem_cons, List.not_mem_nil, or_false, or_self] at hp'
+    exact hp'
+  subst this
+  exact absurd hd (by decide)
+
+/-- … in particular when identifiers are unique -/
+theorem static_fields_immutable_of_nodup {s s' : PmState} {env : PmEnv} {sender : Addr}
+    {funds : List Coin} {m : PmMsg} {r : Response} (hu : (s.pools.map (·.id)).Nodup)
+    (h : pmExecute s env sender funds m = .ok (s', r)) :
+    ∀ p ∈ s.pools, ∃ p' ∈ s'.pools, StaticEq p p' :=
+  static_fields_immutable_partial (sameIdSameStatic_of_nodup hu) h
 
 /-- the reply handler does not touch pools at all -/
 theorem reply_keeps_pools {s s' : PmState} {env : PmEnv} {id : Nat} {r : Response}
     (h : pmReply s env id = .ok (s', r)) : s'.pools = s.pools := by
-  sorry
+  unfold pmReply at h
+  split at h
+  · split at h
+    · cases h
+    · simp only [ite_err_ok] at h
+      obtain ⟨_, _, h⟩ := h
+      cases h; rfl
+  · cases h
 
 /-- identifiers stay unique -/
 theorem ids_unique_preserved {s s' : PmState} {env : PmEnv} {sender : Addr} {funds : List Coin}
     {m : PmMsg} {r : Response} (hu : (s.pools.map (·.id)).Nodup)
     (h : pmExecute s env sender funds m = .ok (s', r)) : (s'.pools.map (·.id)).Nodup := by
-  sorry
+  rcases pmExecute_cases h with hs | ⟨d, dc, f, pt, id, rfl, hc⟩ | ⟨s1, cfg, _, hs, rfl⟩ | ⟨o, _, rfl⟩
+  · rw [hs.ids]; exact hu
+  · obtain ⟨p, hfresh, hpools, _⟩ := createPool_pools hc
+    rw [hpools]; exact insertPoolSorted_nodup hfresh hu
+  · show (s1.pools.map (·.id)).Nodup
+    rw [hs.ids]; exact hu
+  · exact hu
 
 /-- reserves stay aligned with `asset_denoms` (this is what finding F-08 broke) -/
 theorem aligned_preserved {s s' : PmState} {env : PmEnv} {sender : Addr} {funds : List Coin}
     {m : PmMsg} {r : Response} (ha : ∀ p ∈ s.pools, Aligned p)
     (h : pmExecute s env sender funds m = .ok (s', r)) : ∀ p ∈ s'.pools, Aligned p := by
-  sorry
+  rcases pmExecute_cases h with hs | ⟨d, dc, f, pt, id, rfl, hc⟩ | ⟨s1, cfg, _, hs, rfl⟩ | ⟨o, _, rfl⟩
+  · exact step_aligned hs ha
+  · obtain ⟨p0, _, hpools, _, _, hp0⟩ := createPool_pools hc
+    intro q hq
+    rw [hpools] at hq
+    rcases mem_insertPoolSorted.1 hq with rfl | hq
+    · subst hp0
+      show List.map (·.denom) (d.map fun x => (⟨x, 0⟩ : Coin)) = d
+      rw [List.map_map]
+      have : ((fun x : Coin => x.denom) ∘ fun x => (⟨x, 0⟩ : Coin)) = _root_.id := rfl
+      rw [this, List.map_id]
+    · exact ha q hq
+  · exact fun p hp => step_aligned hs ha p hp
+  · exact ha
 
 end MantraDex.C16
